@@ -17,8 +17,8 @@ def app (W : World) (f : Func) (args : List Val) : Out Val := call W (.func f) a
 
 /-- number of arguments a form is written with (`none` = any) -/
 def arity : Form → Option Nat
-  | .infixOp | .backtick | .chainR | .chainL | .chainBoth | .juxt | .rsec | .opAssign => some 2
-  | .dot | .fwdDot => some 1
+  | .infixOp | .backtick | .chainR | .chainL | .chainBoth | .juxt | .rsec | .opAssign | .opSeq => some 2
+  | .dot | .fwdDot | .opSelf | .opSelfApp _ | .opRhsFails => some 1
   | _ => none
 
 /-- side conditions of the property text -/
@@ -40,9 +40,14 @@ def precond (W : World) (form : Form) (f : Func) (args : List Val) : Prop :=
 
 /-- what a form denotes: the plain call — except a list section, which denotes the list -/
 def denotes (W : World) (form : Form) (f : Func) (args : List Val) : Out Val :=
-  match form with
-  | .listMix _ => .ok (.list args)
-  | _ => app W f args
+  match form, args with
+  | .listMix _, _ => .ok (.list args)
+  /- `x f= x` is `f(x, x)`, `x f= g(x)` is `f(x, g(x))`, with the value `x` had BEFORE the statement -/
+  | .opSelf, [a] => app W f [a, a]
+  | .opSelfApp c, [a] => (app W (.closure c) [a]).bind fun r => app W f [a, r]
+  /- a right-hand side that raises leaves the variable alone -/
+  | .opRhsFails, [a] => .ok a
+  | _, _ => app W f args
 
 /-- The property, for one form: it denotes the plain call. -/
 def FormAgrees (W : World) (form : Form) (f : Func) (args : List Val) : Prop :=
@@ -57,12 +62,21 @@ inductive Ref where
   | ifNotFunc
   /-- list sections: the list literal `[a, b, …]` -/
   | listLit
+  /-- `f(a, a)` -/
+  | selfPair
+  /-- `f(a, g(a))` -/
+  | selfApp
+  /-- the first argument itself -/
+  | argA
   deriving DecidableEq, Repr
 
 def refOf : Form → Ref
   | .rsec => .ifSection
   | .juxt => .ifNotFunc
   | .listMix _ => .listLit
+  | .opSelf => .selfPair
+  | .opSelfApp _ => .selfApp
+  | .opRhsFails => .argA
   | _ => .always
 
 end Noulith.ApplySpec
